@@ -18,12 +18,12 @@ from fsmc.explorer import ProductSystem, ListSystem
 PID = "C17"
 RULE = ("all 3^9 three-valued 3x3 windows; all 576 unit impulses x polylines x layers x placements; configurations within the deviation bound; "
         "non-trivial = image not constant; classes = config signature / window multiset / impulse-response signature")
-BOUND = {"quick": "all 19683 windows; all 576 impulses x 6 polylines x layers 0..2 x 2 placements; deviation bound 2 over 10 axes (incl. quantification through read_myosin from a TIFF written to disk, images in which one interface is exactly black, and an earlier quantification of the same interface objects that differs in placement, image or band width); every plain-list call repeated with default-valued arguments omitted",
+BOUND = {"quick": "all 19683 windows; all 576 impulses x 6 polylines x layers 0..2 x 2 placements; deviation bound 2 over 10 axes on five interface sets, two of them long interfaces on 24 x 120 and 120 x 24 images (incl. quantification through read_myosin from a TIFF written to disk, images in which one interface is exactly black, and an earlier quantification of the same interface objects that differs in placement, image or band width); every plain-list call repeated with default-valued arguments omitted",
          "thorough": "same with layers 0..3 and 3 placements; deviation bound 3"}
 ASSUMPTIONS = ["PIL truncates fractional pixel coordinates toward zero; all placements keep coordinates positive",
                "the window of the LAST vertex of a polyline is not part of the integrated band (the walk stops before the end point); images are dark there so the convention does not matter in the configuration sweep; the impulse sweep reports it",
                "'equal for all interfaces of a uniformly bright image' is checked without integration (with integration the band size per unit length depends on the direction of the polyline)"]
-REQUIRED_TAGS = {"all": ["windows", "impulses", "integrate", "average", "float_image", "uint8_image", "uniform_image", "rescaled", "repeated_interface", "diagonal", "curved", "zero_intensity_interface", "defaults_omitted", "requantified_with_other_options", "prior_call:place", "prior_call:image", "prior_call:layers", "through_read_myosin"]}
+REQUIRED_TAGS = {"all": ["windows", "impulses", "integrate", "average", "float_image", "uint8_image", "uniform_image", "rescaled", "repeated_interface", "diagonal", "curved", "zero_intensity_interface", "defaults_omitted", "requantified_with_other_options", "prior_call:place", "prior_call:image", "prior_call:layers", "through_read_myosin", "portrait_image", "landscape_image"]}
 
 POLYLINES = {
     "horizontal": [(4, 6), (7, 6), (10, 6), (13, 6)],
@@ -34,6 +34,9 @@ POLYLINES = {
     "curved": [(4, 10), (6, 7), (9, 5), (12, 6), (14, 9)],
     "fractional": [(3.5, 4.25), (6.75, 6.5), (10.2, 7.9), (13.6, 11.1)],
     "backward": [(15, 12), (11, 10), (8, 9), (4, 4)],
+    # long interfaces for images that are not square (24 x 120 and 120 x 24): vertices whose row / column differ by a whole image width
+    "tall": [(5, 70), (5.5, 58), (6, 46), (7, 30)], "tall2": [(12, 20), (13, 44), (12.5, 60), (14, 92)],
+    "wide": [(70, 5), (58, 5.5), (46, 6), (30, 7)], "wide2": [(20, 12), (44, 13), (60, 12.5), (92, 14)],
 }
 PLACE = [([1, 1], [0, 0]), ([2, 2], [3, 1]), ([0.5, 0.5], [1, 2]), ([2, 3], [4, 7])]
 
@@ -90,10 +93,10 @@ def ref_band(pts, layers, rescale, offset):
 
 
 def make_image(kind, size, scale, dark=(), blackout=()):
-    n = size
-    yy, xx = np.mgrid[0:n, 0:n]
+    W, H = (size, size) if isinstance(size, int) else size       # (width, height)
+    yy, xx = np.mgrid[0:H, 0:W]
     if kind == "uniform":
-        a = np.full((n, n), 37.0)
+        a = np.full((H, W), 37.0)
     elif kind in ("uint8", "uint8_black_first"):
         a = ((xx * 37 + yy * 91 + (xx * yy) % 17 * 13) % 200 + 20).astype(float)
     else:
@@ -220,7 +223,8 @@ class Configs(ProductSystem):
         self.layers = layers
 
     def bases(self):
-        return [["horizontal", "diagonal", "curved"], ["vertical", "shallow", "fractional", "steep"], ["backward", "curved", "curved"]]
+        return [["horizontal", "diagonal", "curved"], ["vertical", "shallow", "fractional", "steep"], ["backward", "curved", "curved"],
+                ["tall", "tall2"], ["wide", "wide2"]]
 
     def axes(self, base):
         return {"place": [0, 1, 2, 3], "layers": self.layers, "integrate": [False, True], "normalize": [None, "average"],
@@ -246,8 +250,13 @@ class Configs(ProductSystem):
         blackout = []
         if cfg["image"].endswith("black_first") and len(polys) > 1:
             blackout = [[(px * rescale[0] + offset[0], py * rescale[1] + offset[1]) for px, py in polys[0]]]
-        img, arr = make_image(cfg["image"], 96, cfg["scale"], dark if cfg["integrate"] else (), blackout)
-        tags = []
+        size = (24, 120) if base[0] == "tall" else ((120, 24) if base[0] == "wide" else 96)
+        Wd, Hd = (size, size) if isinstance(size, int) else size
+        reach = cfg["layers"] + 2
+        if any(not (reach <= px * rescale[0] + offset[0] < Wd - reach and reach <= py * rescale[1] + offset[1] < Hd - reach) for p in polys for px, py in p):
+            return {"viol": [], "tags": ["placement_outside_image"], "cls": "outside", "outdom": True}
+        img, arr = make_image(cfg["image"], size, cfg["scale"], dark if cfg["integrate"] else (), blackout)
+        tags = ["portrait_image"] if base[0] == "tall" else (["landscape_image"] if base[0] == "wide" else [])
         if img is None:
             return {"viol": [], "tags": ["uint8_overflow_skipped"], "cls": "skip", "outdom": True}
         tags.append({"float": "float_image", "uint8": "uint8_image", "uniform": "uniform_image", "uint8_black_first": "uint8_image", "float_black_first": "float_image"}[cfg["image"]])
@@ -268,7 +277,7 @@ class Configs(ProductSystem):
             # an earlier quantification of the SAME interface objects that differs from the judged call in exactly one respect
             # (another channel placed differently, another image, another band width)
             r_, o_ = PLACE[(cfg["place"] + 1) % len(PLACE)] if cfg["prior"] == "place" else (rescale, offset)
-            img_ = make_image("float" if cfg["image"] != "float" else "uniform", 96, 1.0, (), [])[0] if cfg["prior"] == "image" else img
+            img_ = make_image("float" if cfg["image"] != "float" else "uniform", size, 1.0, (), [])[0] if cfg["prior"] == "image" else img
             fsutil.call(fm.get_intensities, edges, img_, cfg["integrate"], cfg["normalize"], cfg["layers"] + (1 if cfg["prior"] == "layers" else 0), rescale=r_, offset=o_)
             tags.append("prior_call:" + cfg["prior"])
         if cfg["entry"] == "file":
